@@ -98,12 +98,13 @@ def score_scale(case):
 
 
 def repair_tie_fragile(case):
-    """True when the domain repair is active for an EXPECTILE score. The repair selects rows by comparing recalibrated
+    """True when the domain repair is active for an EXPECTILE score, or for a mean score when a float tie splits a block. The repair selects rows by comparing recalibrated
     values (`recalibrated <= val1`); block expectiles that agree to an ulp are pooled or not depending on rounding
     (scipy's root finder on one side, the closed form at the binary level on the other), which changes the selected
     rows and the result at the 1e-3 level. That is floating-point behaviour of a discontinuous rule, outside the model:
     such cases are decided by the metamorphic oracle only and counted (`repair_tie_skipped`)."""
-    if functional_of(case) != "expectile":
+    f = functional_of(case)
+    if f not in ("expectile", "mean"):
         return False
     try:
         sf = make_sf(case)
@@ -111,9 +112,30 @@ def repair_tie_fragile(case):
         sf(y[:1], np.array([y.min()]))
         return False  # min(y) admissible: no repair
     except ValueError:
-        return True
+        pass
     except Exception:
         return False
+    if f == "expectile":
+        return True
+    # mean path (scikit-learn): PAVA there pools only on a strict violation, so two neighbouring blocks whose exact means are
+    # EQUAL (5/7 = 15/21 = 10/14) stay apart and come out one ulp different; the repair's `recalibrated <= val1` then takes only
+    # one of them. Fragile exactly when the smallest value above min(y) has such a near-duplicate.
+    try:
+        from sklearn.isotonic import IsotonicRegression as Skl
+
+        w = None if case.get("w") is None else np.array(case["w"], dtype=float)
+        for col in case["cols"]:
+            x = np.array(col, dtype=float)
+            rec = Skl(y_min=None, y_max=None).fit(x, y, sample_weight=w).predict(x)
+            if rec.min() <= y.min():
+                vals = rec[rec > y.min()]
+                if len(vals):
+                    v1 = vals.min()
+                    if np.any((vals != v1) & (np.abs(vals - v1) <= 1e-9 * abs(v1))):
+                        return True
+    except Exception:
+        return False
+    return False
 
 
 def compare_rows(case, io, mo, tol=1e-9):
